@@ -2,7 +2,10 @@
 
 package verifharness
 
-import "fmt"
+import (
+	"fmt"
+	"strings"
+)
 
 // Scenario generators of work package cw.
 
@@ -815,6 +818,63 @@ func serverWord(w []int, kind string) (cwScenario, bool) {
 		s = append(s, hop(0, HOp{Op: "return"}))
 	}
 	return cwScenario{Mode: "server", Steps: s, Tags: []string{"c06", "family:server-words", "kind:" + kind, fmt.Sprintf("len:%d", len(w)+1)}}, true
+}
+
+// the return window: the handler function has returned, the trailer is not yet in the writer's hands (held in the
+// OutTrailer stats event, or in the stream interceptor's part after the handler); envelopes of the client arrive in
+// that window; then the return path goes on. Server mode (scripted client) and end to end.
+func c06ReturnWindow() []cwScenario {
+	var out []cwScenario
+	for _, kind := range []string{"Bidi", "CStream", "SStream"} {
+		m := "/verif.Echo/" + kind
+		for _, hold := range []string{"trailer", "post"} {
+			for ex := 0; ex < 2; ex++ {
+				for _, late := range []string{"body", "body-body", "close", "reset", "body-reset"} {
+					s := []Step{{Op: "cli", M: m, Env: &EnvSpec{Call: 0, Hdr: "ok:0", Trl: "none"}}}
+					if ex == 1 {
+						s = append(s, Step{Op: "cli", M: m, Env: bodyEnv(0, 10)}, hop(0, HOp{Op: "recv"}))
+						if kind != "CStream" {
+							s = append(s, hop(0, HOp{Op: "send", B: 20}))
+						}
+					}
+					s = append(s, hop(0, HOp{Op: "return", Code: 5 * ex, Msg: 7, Hold: hold}))
+					for i, l := range strings.Split(late, "-") {
+						switch l {
+						case "body":
+							s = append(s, Step{Op: "cli", M: m, Env: bodyEnv(0, int64(30*i))})
+						case "close":
+							s = append(s, Step{Op: "cli", M: m, Env: trlEnv(0, 0)})
+						case "reset":
+							s = append(s, Step{Op: "cli", M: m, Env: &EnvSpec{Call: 0, Hdr: "ok:0", Trl: "none", Rst: true}})
+						}
+					}
+					s = append(s, Step{Op: "hrelease"},
+						Step{Op: "cli", M: "/verif.Echo/Unary", Env: &EnvSpec{Call: 1, Hdr: "ok:0", Body: i64(77), Trl: "none"}})
+					out = append(out, cwScenario{Mode: "server", Steps: s, Tags: []string{"c06", "family:return-window", "kind:" + kind,
+						"hold:" + hold, "late:" + late, fmt.Sprintf("exchanged:%d", ex)}})
+				}
+				// end to end: the real client sends into the window
+				for late := 1; late <= 2; late++ {
+					s := []Step{{Op: "open", Kind: kind}, {Op: "c2s"}}
+					if ex == 1 {
+						s = append(s, Step{Op: "send", C: 0, B: 10}, Step{Op: "c2s"}, hop(0, HOp{Op: "recv"}))
+						if kind != "CStream" {
+							s = append(s, hop(0, HOp{Op: "send", B: 20}), Step{Op: "s2c"}, Step{Op: "recv", C: 0})
+						}
+					}
+					s = append(s, hop(0, HOp{Op: "return", Code: 5 * ex, Msg: 7, Hold: hold}))
+					for i := 0; i < late; i++ {
+						s = append(s, Step{Op: "send", C: 0, B: int64(30 * i)}, Step{Op: "c2s"})
+					}
+					s = append(s, Step{Op: "hrelease"}, Step{Op: "drain"}, Step{Op: "recv", C: 0}, Step{Op: "recv", C: 0})
+					s = append(s, probeSteps(false)...)
+					out = append(out, cwScenario{Mode: "e2e", Steps: s, Tags: []string{"c06", "family:return-window", "kind:" + kind,
+						"hold:" + hold, fmt.Sprintf("late:%d", late), fmt.Sprintf("exchanged:%d", ex)}})
+				}
+			}
+		}
+	}
+	return out
 }
 
 func words(alpha, maxLen int, f func(w []int)) {
